@@ -11,7 +11,7 @@ grammar generates every string, and `om_iff_lists` / `gzip_iff_lists` restate th
 Scope decisions (also in the harness and the report):
 * A request carries AT MOST ONE `Accept` and one `Accept-Encoding` field line (the property speaks of "any Accept,
   Accept-Encoding and query string" — one value each or absent).  Repeated field lines are OUT OF SCOPE of
-  `frontends_agree_partial`; the model still describes them (ASGI joins all values with ',', as wsgiref does for WSGI;
+  `frontends_agree`; the model still describes them (ASGI joins all values with ',', as wsgiref does for WSGI;
   `MetricsHandler` reads only the first), see `duplicate_field_lines_differ`.
 * Header values are text as each front-end sees it after its server decoded the bytes (latin-1 in wsgiref/http.server,
   UTF-8 in asgi.py); the byte level is outside the model, so agreement is about equal TEXT (for ASCII-only header
@@ -19,16 +19,11 @@ Scope decisions (also in the harness and the report):
 * The property quantifies over Accept, Accept-Encoding and query string, not over the path: `GET /favicon.ico` (WSGI
   answers 200 with an empty body, by design) is excluded by hypothesis `hfav`.
 
-Finding F12 (confirmed on the real code by the harness): `asgi.py` calls `parse_qs` on the `bytes` query string, gets
-`bytes` keys, and `'name[]' in params` is never true — the ASGI app never restricts.  `frontends_agree_partial` carries
-exactly the hypothesis "the query string has no name[] value"; `asgi_ignores_name_param` is the kernel-checked
-counter-example for the full statement and `asgi_never_restricts` states what the code does.
-Finding F12b (found by the harness, same root cause): `parse_qs(<bytes>)` raises UnicodeEncodeError/UnicodeDecodeError
-when a percent-escape or raw byte of the query string is not ASCII (`?lang=%C3%A9`), so the ASGI app raises where WSGI
-and MetricsHandler answer 200; hypothesis `hpq` ("parse_qs accepts the bytes query string") excludes exactly that class
-and `asgi_raises_on_non_ascii_query` is its kernel-checked counter-example.  When asgi.py is repaired
-(`parse_qs(scope.get('query_string', b'').decode())` is the shape the extractor understands: `asgiQueryDecoded` becomes
-true) these three theorems stop checking and are to be replaced by the full `frontends_agree`.
+History: findings F12 (the ASGI app called `parse_qs` on the `bytes` query string, got `bytes` keys and never restricted)
+and F12b (the same call raised UnicodeEncodeError on non-ASCII escapes such as `?lang=%C3%A9`) were confirmed by this
+check and repaired in /repo (asgi.py now decodes the query string as latin-1 before `parse_qs`; the extractor reports
+that as `asgiQueryDecoded = true`).  `frontends_agree` and `wsgi_asgi_agree` are therefore stated at full strength; they
+stop checking if the decode is removed again, and the harness keeps both failure classes as ordinary VIOLATIONs.
 -/
 import PromVerif.Model.Http
 import PromVerif.Spec.Http
@@ -537,57 +532,35 @@ private theorem bake_absent_eq_empty (env : Env B) (a ae : Option Str) (params :
     bakeOutput env (some (a.getD [])) (some (ae.getD [])) params d = bakeOutput env a ae params d := by
   cases a <;> cases ae <;> rfl
 
-/-
-Full statement (FALSE on the unchanged tree, findings F12 / F12b — see `asgi_ignores_name_param`,
-`asgi_raises_on_non_ascii_query`):
+/-- **frontends_agree.**  For EVERY GET request (any path but WSGI's favicon special case) — any Accept value or none,
+any Accept-Encoding value or none, any other header fields, any spelling of the two field names, any query string
+(`name[]` values, percent-escapes, non-ASCII escapes included) — the three front-ends return the same status, the same
+header list (so the same Content-Type and the same Content-Encoding presence), the same body (so the same format,
+restriction and compression) and the same `collected` flag, and none of them raises.  Compression is enabled, since
+MetricsHandler cannot disable it (`d = false`).
 
-  theorem frontends_agree : ∀ r an aen …, (same hypotheses without `hno` and `hpq`) →
-      wsgiApp env parseQs false (r.environ "GET") = asgiApp env parseQs parseQsB decodeQ false (r.scope an aen utf8)
-      ∧ asgiApp env parseQs parseQsB decodeQ false (r.scope an aen utf8) = .ok (handlerGet env parseQs urlQuery (r.handler an aen))
-
-What is missing: (1) query strings that carry a `name[]` value — there the ASGI app serves the whole registry while WSGI
-and MetricsHandler serve the restricted one; (2) query strings on which `parse_qs(<bytes>)` raises (a percent-escape or
-raw byte outside ASCII) — there the ASGI app raises instead of answering.
--/
-
-/-- **frontends_agree_partial.**  For every GET request (any path but WSGI's favicon special case) with any Accept
-value or none, any Accept-Encoding value or none, any other header fields, any spelling of the two field names, and any
-query string WITHOUT a `name[]` value (`hno`) that `parse_qs` accepts in its `bytes` form (`hpq`), the three front-ends
-return the same status, the same header list (so the same Content-Type and the same Content-Encoding presence), the
-same body (so the same format, restriction and compression) and the same `collected` flag.  Compression is enabled,
-since MetricsHandler cannot disable it (`d = false`).
-Library laws used as hypotheses (validated per case by the harness): `urlparse(path + '?' + q).query == q`;
-`q.encode().decode() == q` (only needed once asgi.py decodes the query string). -/
-theorem frontends_agree_partial (env : Env B) (parseQs : Str → List (Str × List Str))
-    (parseQsB : Bytes → PyM (List (Bytes × List Bytes))) (decodeQ : Bytes → PyM Str) (utf8 : Str → Bytes)
+Hypotheses that are library laws (trusted base, validated per case by the harness), nothing else:
+* `hurl` : `urlparse(path + '?' + q).query == q`   (MetricsHandler takes the query from the request target);
+* `hdec` : `enc(q).decode('latin-1') == q` and does not raise, where `enc(q)` is the `bytes` query string the ASGI server
+  hands over and `q` the `str` wsgiref hands over (wsgiref decodes the same bytes as latin-1). -/
+theorem frontends_agree (env : Env B) (parseQs : Str → List (Str × List Str))
+    (parseQsB : Bytes → PyM (List (Bytes × List Bytes))) (decodeQ : Bytes → PyM Str) (enc : Str → Bytes)
     (urlQuery : Str → Str) (r : Req) (an aen : Str)
     (han : lower an = "accept".toList) (haen : lower aen = "accept-encoding".toList) (hok : r.OthersOk)
-    (hurl : urlQuery (r.path ++ '?' :: r.query) = r.query) (hdec : decodeQ (utf8 r.query) = .ok r.query)
-    (hfav : r.path ≠ "/favicon.ico".toList)
-    (hno : nameKey ∉ (parseQs r.query).map Prod.fst)
-    (hpq : ∃ l, parseQsB (utf8 r.query) = .ok l) :
+    (hurl : urlQuery (r.path ++ '?' :: r.query) = r.query) (hdec : decodeQ (enc r.query) = .ok r.query)
+    (hfav : r.path ≠ "/favicon.ico".toList) :
     wsgiApp env parseQs false (r.environ "GET".toList)
-        = asgiApp env parseQs parseQsB decodeQ false (r.scope an aen utf8) ∧
-    asgiApp env parseQs parseQsB decodeQ false (r.scope an aen utf8)
+        = asgiApp env parseQs parseQsB decodeQ false (r.scope an aen enc) ∧
+    asgiApp env parseQs parseQsB decodeQ false (r.scope an aen enc)
         = .ok (handlerGet env parseQs urlQuery (r.handler an aen)) := by
   have hw := wsgi_get env parseQs false (r.environ "GET".toList) r.path rfl rfl hfav
   obtain ⟨ha1, ha2⟩ := asgiHeader_fields r an aen hok han haen
   obtain ⟨hh1, hh2⟩ := headersGet_fields r an aen hok han haen
-  obtain ⟨l, hl⟩ := hpq
-  have hk : Generated.Http.nameKey = nameKey := by decide
-  -- all three parameter dicts have no `str` key `name[]`
-  have hlk : (strParams (parseQs r.query)).lookup (PyKey.str Generated.Http.nameKey) = none := by
-    rw [hk, lookup_strParams, lookup_none_of_not_mem _ _ hno]; rfl
-  have hasgi : asgiApp env parseQs parseQsB decodeQ false (r.scope an aen utf8)
+  have hq : Generated.Http.asgiQueryDecoded = true := by decide
+  have hasgi : asgiApp env parseQs parseQsB decodeQ false (r.scope an aen enc)
       = .ok (bakeOutput env r.accept r.acceptEnc (strParams (parseQs r.query)) false) := by
     unfold asgiApp asgiParams Req.scope
-    simp only [ha1, ha2, Option.getD_some]
-    by_cases hq : Generated.Http.asgiQueryDecoded = true
-    · simp only [hq, if_true, hdec, Except.map, bake_absent_eq_empty]
-    · simp only [hq, Bool.false_eq_true, if_false, hl, Except.map, bake_absent_eq_empty]
-      congr 1
-      unfold bakeOutput
-      rw [hlk, lookup_bytesParams]
+    simp only [ha1, ha2, Option.getD_some, hq, if_true, hdec, Except.map, bake_absent_eq_empty]
   have hhand : handlerGet env parseQs urlQuery (r.handler an aen)
       = bakeOutput env r.accept r.acceptEnc (strParams (parseQs r.query)) false := by
     unfold handlerGet Req.handler
@@ -597,35 +570,24 @@ theorem frontends_agree_partial (env : Env B) (parseQs : Str → List (Str × Li
   · rw [hw, hasgi]; rfl
   · rw [hasgi, hhand]
 
-/-- WSGI and ASGI also agree for either setting of `disable_compression` (same hypotheses) -/
-theorem wsgi_asgi_agree_partial (env : Env B) (parseQs : Str → List (Str × List Str))
-    (parseQsB : Bytes → PyM (List (Bytes × List Bytes))) (decodeQ : Bytes → PyM Str) (utf8 : Str → Bytes)
+/-- **wsgi_asgi_agree.**  WSGI and ASGI agree on every GET request for either setting of `disable_compression`
+(only the latin-1 round-trip law `hdec` is used). -/
+theorem wsgi_asgi_agree (env : Env B) (parseQs : Str → List (Str × List Str))
+    (parseQsB : Bytes → PyM (List (Bytes × List Bytes))) (decodeQ : Bytes → PyM Str) (enc : Str → Bytes)
     (r : Req) (an aen : Str) (d : Bool)
     (han : lower an = "accept".toList) (haen : lower aen = "accept-encoding".toList) (hok : r.OthersOk)
-    (hdec : decodeQ (utf8 r.query) = .ok r.query) (hfav : r.path ≠ "/favicon.ico".toList)
-    (hno : nameKey ∉ (parseQs r.query).map Prod.fst)
-    (hpq : ∃ l, parseQsB (utf8 r.query) = .ok l) :
+    (hdec : decodeQ (enc r.query) = .ok r.query) (hfav : r.path ≠ "/favicon.ico".toList) :
     wsgiApp env parseQs d (r.environ "GET".toList)
-        = asgiApp env parseQs parseQsB decodeQ d (r.scope an aen utf8) := by
+        = asgiApp env parseQs parseQsB decodeQ d (r.scope an aen enc) := by
   have hw := wsgi_get env parseQs d (r.environ "GET".toList) r.path rfl rfl hfav
   obtain ⟨ha1, ha2⟩ := asgiHeader_fields r an aen hok han haen
-  obtain ⟨l, hl⟩ := hpq
-  have hk : Generated.Http.nameKey = nameKey := by decide
-  have hlk : (strParams (parseQs r.query)).lookup (PyKey.str Generated.Http.nameKey) = none := by
-    rw [hk, lookup_strParams, lookup_none_of_not_mem _ _ hno]; rfl
+  have hq : Generated.Http.asgiQueryDecoded = true := by decide
   rw [hw]
   unfold asgiApp asgiParams Req.scope
-  simp only [ha1, ha2, Option.getD_some]
-  by_cases hq : Generated.Http.asgiQueryDecoded = true
-  · simp only [hq, if_true, hdec, Except.map, bake_absent_eq_empty]; rfl
-  · simp only [hq, Bool.false_eq_true, if_false, hl, Except.map, bake_absent_eq_empty]
-    congr 1
-    unfold bakeOutput
-    rw [lookup_bytesParams]
-    simp only [Req.environ, Option.getD_some, hlk]
+  simp only [ha1, ha2, Option.getD_some, hq, if_true, hdec, Except.map, bake_absent_eq_empty]
+  rfl
 
-/-- WSGI and MetricsHandler agree on EVERY GET request, `name[]` and non-ASCII escapes included (both parse a `str`
-query string) -/
+/-- WSGI and MetricsHandler agree on every GET request (both parse a `str` query string) -/
 theorem wsgi_handler_agree (env : Env B) (parseQs : Str → List (Str × List Str)) (urlQuery : Str → Str)
     (r : Req) (an aen : Str)
     (han : lower an = "accept".toList) (haen : lower aen = "accept-encoding".toList) (hok : r.OthersOk)
@@ -638,32 +600,37 @@ theorem wsgi_handler_agree (env : Env B) (parseQs : Str → List (Str × List St
   simp only [hh1, hh2, hurl]
   rfl
 
-/-! ### non-vacuity and the counter-examples -/
+/-- every front-end restricts to the `name[]` values `parse_qs` found in the `str` query string: the body of the common
+answer is the exposition restricted to `(parseQs q).lookup 'name[]'` -/
+theorem frontends_restrict (env : Env B) (parseQs : Str → List (Str × List Str)) (a ae : Option Str) (q : Str) (d : Bool) :
+    let r := bakeOutput env a ae (strParams (parseQs q)) d
+    let e := env.expo (chooseEncoder a).1 (((parseQs q).lookup nameKey).map fun vs => vs.map PyKey.str)
+    r.body = e ∨ r.body = env.gzip e := by
+  intro r e
+  have := (content_type_matches_body env a ae (strParams (parseQs q)) d).2.2.1
+  rw [lookup_strParams] at this
+  exact this
+
+/-! ### non-vacuity -/
 
 /-- a concrete environment: a body records format, restriction and whether it was compressed -/
 def exEnv : Env (Fmt × Option (List PyKey) × Bool) :=
   { expo := fun f r => (f, r, false), gzip := fun b => (b.1, b.2.1, true), empty := (.text, none, false),
     errBody := fun _ _ => (.text, none, false) }
 
-/-- `parse_qs` on the three query strings used below -/
+/-- `parse_qs` on the query strings used below -/
 def exParseQs (q : Str) : List (Str × List Str) :=
   if q = "name[]=a".toList then [("name[]".toList, ["a".toList])]
   else if q = "lang=%C3%A9".toList then [("lang".toList, [[Char.ofNat 0xe9]])]
   else if q = "a=b".toList then [("a".toList, ["b".toList])]
   else []
-def exUtf8 (s : Str) : Bytes := s.map fun c => UInt8.ofNat c.toNat
-/-- `parse_qs` on the same query strings as `bytes`: `bytes` keys and values, and an exception for the non-ASCII escape -/
-def exParseQsB (q : Bytes) : PyM (List (Bytes × List Bytes)) :=
-  if q = exUtf8 "name[]=a".toList then .ok [(exUtf8 "name[]".toList, [exUtf8 "a".toList])]
-  else if q = exUtf8 "lang=%C3%A9".toList then .error .unicodeError
-  else if q = exUtf8 "a=b".toList then .ok [(exUtf8 "a".toList, [exUtf8 "b".toList])]
-  else .ok []
+/-- latin-1 encode / decode -/
+def exEnc (s : Str) : Bytes := s.map fun c => UInt8.ofNat c.toNat
 def exDecode (b : Bytes) : PyM Str := .ok (b.map fun x => Char.ofNat x.toNat)
+/-- `parse_qs` on `bytes` as the standard library behaves (no longer reached by asgi.py) -/
+def exParseQsB (q : Bytes) : PyM (List (Bytes × List Bytes)) :=
+  if q = exEnc "lang=%C3%A9".toList then .error .unicodeError else .ok []
 def exUrlQuery (s : Str) : Str := (s.dropWhile (· ≠ '?')).drop 1
-/-- the exception an answer carries, if any -/
-def errorOf {α : Type} : PyM α → Option PyErr
-  | .error e => some e
-  | .ok _ => none
 
 def exReq (q : String) : Req :=
   { path := "/metrics".toList, query := q.toList,
@@ -671,79 +638,36 @@ def exReq (q : String) : Req :=
     acceptEnc := some "br, GZip;q=0.9".toList,
     before := [("Host".toList, "x".toList)], after := [("User-Agent".toList, "t".toList)] }
 
-/-- the hypotheses of `frontends_agree_partial` are satisfiable by a non-trivial request (OpenMetrics + gzip) -/
+/-- the hypotheses of `frontends_agree` hold for the two former counter-example requests (`?name[]=a`, `?lang=%C3%A9`),
+and the common answer is the gzip-compressed OpenMetrics exposition, restricted to `['a']` in the first case -/
 example :
-    wsgiApp exEnv exParseQs false ((exReq "a=b").environ "GET".toList)
-      = asgiApp exEnv exParseQs exParseQsB exDecode false ((exReq "a=b").scope "accept".toList "accept-encoding".toList exUtf8)
-    ∧ (asgiApp exEnv exParseQs exParseQsB exDecode false ((exReq "a=b").scope "accept".toList "accept-encoding".toList exUtf8)).toOption.map (·.body)
-      = some (Fmt.om, none, true) := by
+    (asgiApp exEnv exParseQs exParseQsB exDecode false
+        ((exReq "name[]=a").scope "accept".toList "accept-encoding".toList exEnc)).toOption.map (fun r => (r.status, r.body))
+      = some (statusOK, (Fmt.om, some [PyKey.str "a".toList], true)) ∧
+    (asgiApp exEnv exParseQs exParseQsB exDecode false
+        ((exReq "lang=%C3%A9").scope "accept".toList "accept-encoding".toList exEnc)).toOption.map (fun r => (r.status, r.body))
+      = some (statusOK, (Fmt.om, none, true)) := by
+  constructor <;> decide +kernel
+
+example :
+    wsgiApp exEnv exParseQs false ((exReq "name[]=a").environ "GET".toList)
+      = asgiApp exEnv exParseQs exParseQsB exDecode false ((exReq "name[]=a").scope "accept".toList "accept-encoding".toList exEnc) := by
   have han : lower "accept".toList = "accept".toList := by decide +kernel
   have haen : lower "accept-encoding".toList = "accept-encoding".toList := by decide +kernel
-  have hok : (exReq "a=b").OthersOk := Req.othersOk_of_all _ (by decide +kernel)
-  have hurl : exUrlQuery ((exReq "a=b").path ++ '?' :: (exReq "a=b").query) = (exReq "a=b").query := by
+  have hok : (exReq "name[]=a").OthersOk := Req.othersOk_of_all _ (by decide +kernel)
+  have hurl : exUrlQuery ((exReq "name[]=a").path ++ '?' :: (exReq "name[]=a").query) = (exReq "name[]=a").query := by
     decide +kernel
-  have hdec : exDecode (exUtf8 (exReq "a=b").query) = .ok (exReq "a=b").query := by
-    have : (exDecode (exUtf8 (exReq "a=b").query)).toOption = some (exReq "a=b").query := by decide +kernel
+  have hdec : exDecode (exEnc (exReq "name[]=a").query) = .ok (exReq "name[]=a").query := by
+    have : (exDecode (exEnc (exReq "name[]=a").query)).toOption = some (exReq "name[]=a").query := by decide +kernel
     unfold exDecode at this ⊢
     simpa [Except.toOption] using this
-  have hfav : (exReq "a=b").path ≠ "/favicon.ico".toList := by decide +kernel
-  have hno : nameKey ∉ (exParseQs (exReq "a=b").query).map Prod.fst := by decide +kernel
-  have hpq : ∃ l, exParseQsB (exUtf8 (exReq "a=b").query) = .ok l := by
-    have h1 : ¬ exUtf8 (exReq "a=b").query = exUtf8 "name[]=a".toList := by decide +kernel
-    have h2 : ¬ exUtf8 (exReq "a=b").query = exUtf8 "lang=%C3%A9".toList := by decide +kernel
-    have h3 : exUtf8 (exReq "a=b").query = exUtf8 "a=b".toList := by decide +kernel
-    exact ⟨_, by unfold exParseQsB; rw [if_neg h1, if_neg h2, if_pos h3]⟩
-  exact ⟨(frontends_agree_partial exEnv exParseQs exParseQsB exDecode exUtf8 exUrlQuery (exReq "a=b")
-    "accept".toList "accept-encoding".toList han haen hok hurl hdec hfav hno hpq).1, by decide +kernel⟩
+  have hfav : (exReq "name[]=a").path ≠ "/favicon.ico".toList := by decide +kernel
+  exact (frontends_agree exEnv exParseQs exParseQsB exDecode exEnc exUrlQuery (exReq "name[]=a")
+    "accept".toList "accept-encoding".toList han haen hok hurl hdec hfav).1
 
-/-- **Counter-example to the full `frontends_agree` (finding F12)**: on `GET /metrics?name[]=a` the WSGI app and
-MetricsHandler serve the registry restricted to `['a']`, the ASGI app serves the whole registry. -/
-theorem asgi_ignores_name_param :
-    (wsgiApp exEnv exParseQs false ((exReq "name[]=a").environ "GET".toList)).toOption.map (·.body)
-        = some (Fmt.om, some [PyKey.str "a".toList], true) ∧
-    (handlerGet exEnv exParseQs exUrlQuery ((exReq "name[]=a").handler "Accept".toList "Accept-Encoding".toList)).body
-        = (Fmt.om, some [PyKey.str "a".toList], true) ∧
-    (asgiApp exEnv exParseQs exParseQsB exDecode false
-        ((exReq "name[]=a").scope "accept".toList "accept-encoding".toList exUtf8)).toOption.map (·.body)
-        = some (Fmt.om, none, true) := by decide +kernel
-
-/-- **Second counter-example (finding F12b)**: on `GET /metrics?lang=%C3%A9`, where `parse_qs(<bytes>)` raises, the WSGI
-app answers 200 with the whole registry and the ASGI app raises `UnicodeEncodeError`. -/
-theorem asgi_raises_on_non_ascii_query :
-    (wsgiApp exEnv exParseQs false ((exReq "lang=%C3%A9").environ "GET".toList)).toOption.map (fun r => (r.status, r.body))
-        = some (statusOK, (Fmt.om, none, true)) ∧
-    errorOf (asgiApp exEnv exParseQs exParseQsB exDecode false
-        ((exReq "lang=%C3%A9").scope "accept".toList "accept-encoding".toList exUtf8)) = some .unicodeError := by
-  decide +kernel
-
-/-- what asgi.py does today: it raises exactly when `parse_qs(<bytes>)` does, and otherwise — whatever `parse_qs`
-returns — the body is the exposition of the UNRESTRICTED registry -/
-theorem asgi_never_restricts (env : Env B) (parseQs : Str → List (Str × List Str))
-    (parseQsB : Bytes → PyM (List (Bytes × List Bytes))) (decodeQ : Bytes → PyM Str) (d : Bool) (s : Scope) :
-    (∀ e, parseQsB (s.queryString.getD []) = .error e → asgiApp env parseQs parseQsB decodeQ d s = .error e) ∧
-    (∀ l, parseQsB (s.queryString.getD []) = .ok l →
-      ∃ r f, asgiApp env parseQs parseQsB decodeQ d s = .ok r ∧
-        (r.body = env.expo f none ∨ r.body = env.gzip (env.expo f none))) := by
-  have hq : Generated.Http.asgiQueryDecoded = false := by decide
-  have hk : Generated.Http.nameKey = nameKey := by decide
-  constructor
-  · intro e he
-    unfold asgiApp asgiParams
-    simp only [hq, Bool.false_eq_true, if_false, he, Except.map]
-  · intro l hl
-    unfold asgiApp asgiParams
-    simp only [hq, Bool.false_eq_true, if_false, hl, Except.map]
-    refine ⟨_, (chooseEncoder (some (asgiHeader Generated.Http.asgiAcceptName s.headers))).1, rfl, ?_⟩
-    rw [bake_eq]
-    unfold plainBody
-    rw [← hk, lookup_bytesParams]
-    split
-    · exact Or.inr rfl
-    · exact Or.inl rfl
-
-/-- OUT OF SCOPE of `frontends_agree_partial`, recorded for the reader: with two `Accept` field lines the ASGI app
-(joining all values, like wsgiref does for WSGI) chooses OpenMetrics while MetricsHandler, reading only the first
-line, chooses text. -/
+/-- OUT OF SCOPE of `frontends_agree`, recorded for the reader: with two `Accept` field lines the ASGI app (joining all
+values, like wsgiref does for WSGI) chooses OpenMetrics while MetricsHandler, reading only the first line, chooses
+text. -/
 theorem duplicate_field_lines_differ :
     let fields := [("accept".toList, "text/plain".toList), ("accept".toList, "application/openmetrics-text".toList)]
     (asgiApp exEnv exParseQs exParseQsB exDecode false ⟨fields, none⟩).toOption.map (·.body) = some (Fmt.om, none, false) ∧
